@@ -44,6 +44,8 @@ def make_sub(ctx, src, which, fixed_idx, method=False, dense=False, nlab=3):
         U = [(), (labs[0],), (labs[0], labs[1]), (labs[1], labs[2])] + ([tuple(labs)] if not deg2 else [(labs[2],)])
     if src == 'dict':
         U = U + [(labs[1], labs[0]), (labs[0], labs[0]), (labs[1], labs[2], labs[1])]       # unsorted and repeated labels (raw dict)
+    if len(fixed_idx) != 2 and () in U:
+        U = [k for k in U if k != ()] + [()]          # the constant is not the first entry: terms that collapse onto () come before it
     cs = {k: ctx.real_var('c%d' % i) for i, k in enumerate(U)}
     v0 = ctx.real_var('v0')
     fixed = [labs[i] for i in fixed_idx]
@@ -60,6 +62,9 @@ def make_sub(ctx, src, which, fixed_idx, method=False, dense=False, nlab=3):
             nodes = set(rest)
             f = (lambda n, c=None: G.subgraph(n, c)) if method else (lambda n, c=None: subgraph(G, n, c))
             outs = {'subgraph(conn)': f(nodes, vals), 'subgraph(default)': f(nodes)}
+            if rest:
+                # connections that also mention a node: only variables outside the node set are fixed
+                outs['subgraph(conn incl. a node)'] = f(nodes, {**vals, rest[0]: v0 + 1})
         return G, vals, outs, before == O.snapshot(G)
 
     def check(res):
@@ -76,7 +81,7 @@ def make_sub(ctx, src, which, fixed_idx, method=False, dense=False, nlab=3):
                 full = dict(a)
                 if name == 'subgraph(default)':
                     full.update({l: 0 for l in fixed}); ref = Gwo
-                elif name == 'subgraph(conn)':
+                elif name in ('subgraph(conn)', 'subgraph(conn incl. a node)'):
                     full.update(vals); ref = Gwo
                 else:
                     full.update(vals); ref = G
